@@ -8,7 +8,15 @@ import fol
 import streams
 from common import parse_q, sub_seed
 
-THEOREMS = ["LNN.C09_foj_complete", "LNN.C09_foldJoin_complete", "LNN.C09_join_complete", "LNN.C09_upward_present"]
+THEOREMS = ["LNN.C09_foj_complete",
+            "LNN.C09_foldJoin_complete",
+            "LNN.C09_join_complete",
+            "LNN.C09_join_aligned",
+            "LNN.C09_homogeneous_complete",
+            "LNN.C09_upward_present",
+            "LNN.C09_upward_present_homogeneous",
+            "LNN.C09_upward_keeps_rows",
+            "LNN.C09_operands_kept"]
 MODULES = ["LnnVerif.Props.C09"]
 VARS = ["x", "y", "z"]
 
